@@ -121,14 +121,16 @@ async def merge(
     The ``iterables`` must be pre-sorted in the same order.
     """
     a_key = awaitify(key) if key is not None else None
-    # sortable iterators with position to ensure stable sort for ties
-    iter_heap: "list[tuple[_KeyIter[Any], int]]" = [
-        (itr, idx)
-        async for idx, itr in a_enumerate(
-            _KeyIter[Any].from_iters(iterables, reverse, a_key)
-        )
-    ]
+    iterators = (*(aiter(iterable) for iterable in iterables),)
+    del iterables
     try:
+        # sortable iterators with position to ensure stable sort for ties
+        iter_heap: "list[tuple[_KeyIter[Any], int]]" = [
+            (itr, idx)
+            async for idx, itr in a_enumerate(
+                _KeyIter[Any].from_iters(iterators, reverse, a_key)
+            )
+        ]
         _heapq.heapify(iter_heap)
         # there are at least two iterators that need merging
         while len(iter_heap) > 1:
@@ -147,9 +149,9 @@ async def merge(
             async for item in itr.tail:
                 yield item
     finally:
-        for itr, _ in iter_heap:
-            if isinstance(itr.tail, ACloseable):
-                await itr.tail.aclose()
+        for iterator in iterators:
+            if isinstance(iterator, ACloseable):
+                await iterator.aclose()
 
 
 class ReverseLT(Generic[LT]):
